@@ -335,6 +335,20 @@ pub fn generate(seed: u64, thorough: bool, sink: &mut Sink) -> Vec<String> {
     }
     let _ = fi;
   }
+  // round trip of the files compiled from the programs of the bytecode generator (C06): every kind of
+  // constant, instruction form and dictionary the other generators reach
+  {
+    let mut scratch = Sink::new();
+    let progs = crate::c06::generate(seed, thorough, &mut scratch);
+    let want = if thorough { 1200 } else { 120 };
+    let step = (progs.len() / want).max(1);
+    for c in progs.iter().step_by(step).take(want) {
+      let f: Vec<&str> = c.split('\t').collect();
+      if f.len() < 3 { continue; }
+      let src = match String::from_utf8(unhex(f[2])) { Ok(s) => s, Err(_) => continue };
+      if let Some(b) = emit(&src) { if b.len() < 6000 { cases.push(format!("rt\t{}", hexb(&b))); sink.hit("rt:generated-program"); } } else { sink.hit("rt:generated-program-does-not-compile"); }
+    }
+  }
   cases.push("instrs\tR:0".into());
   cases.push("instrs\tC:1:2;R:7".into());
   cases.push("instrs\tR:7;C:1:2".into());
